@@ -1,6 +1,9 @@
 package main
 
 import (
+	"errors"
+	"fmt"
+	"strconv"
 	"strings"
 
 	"github.com/flosch/pongo2/v6"
@@ -44,6 +47,13 @@ func runC16(r *run) {
 			// the same construct with text inserted in front (position shift)
 			pre := g.rg.pick([]string{"x", "ab\n", "\n\n  ", "é\r\nzz", "12345"})
 			emit(caseT{"lexshift", []string{hx(pre), hx(src)}})
+		}
+		nerr := 1500
+		if r.tier == "thorough" {
+			nerr = 40000
+		}
+		for i := 0; i < nerr; i++ {
+			emit(genErrFile(rg.fork(uint64(1<<40 + i)), i))
 		}
 	}
 	driveCases(r, gen, execC16)
@@ -124,6 +134,8 @@ func tokenAt(src string, t *pongo2.Token) string {
 
 func execC16(r *run, c caseT) {
 	switch c.op {
+	case "errfile":
+		execErrFile(r, c)
 	case "lex":
 		src := unhx(c.args[0])
 		obs, toks, lerr := lexObs(src)
@@ -226,5 +238,140 @@ func execC16(r *run, c caseT) {
 			}
 		}
 		r.nontrivial(c.args[0] + c.args[1])
+	}
+}
+
+// ---- errors in multi-file compositions: the error must name the file the offending
+// construct was written in, and a position inside that construct ----
+
+var errConstructs = []struct {
+	text    string
+	compile bool
+}{
+	{"{{ boom() }}", false},
+	{"{% if boom() %}x{% endif %}", false},
+	{"{% nosuchtag %}", true},
+	{"{{ a| }}", true},
+	{"{{ 1 + }}", true},
+}
+
+// genErrFile plants one failing construct at a random position of one file of a composition.
+func genErrFile(rg *rng, i int) caseT {
+	pad := rg.pick([]string{"", "x", "line one\nline two\n", "  \t", "é\n\n  ab", "<p>\n"})
+	c := errConstructs[rg.intn(len(errConstructs))]
+	planted := pad + c.text + "tail"
+	files := map[string]string{}
+	where := rg.intn(8)
+	expect := "main.html"
+	l, cc := 0, 0
+	put := func(name, before, after string) {
+		files[name] = before + planted + after
+		expect = name
+		pre := before + pad
+		l = 1 + strings.Count(pre, "\n")
+		cc = 1 + len(pre) - (strings.LastIndexByte(pre, '\n') + 1)
+	}
+	switch where {
+	case 0: // top level of the entry template
+		put("main.html", "", "")
+	case 1: // inside a block override of a child
+		files["base.html"] = "B{% block c %}base{% endblock %}E"
+		put("main.html", "{% extends \"base.html\" %}\n{% block c %}", "{% endblock %}")
+	case 2: // in the parent, outside blocks
+		put("base.html", "top\n", "{% block c %}base{% endblock %}E")
+		files["main.html"] = "{% extends \"base.html\" %}{% block c %}child{% endblock %}"
+	case 3: // static include
+		put("inc.html", "", "")
+		files["main.html"] = "a\n{% include \"inc.html\" %}b"
+	case 4: // lazy include
+		put("inc.html", "", "")
+		files["main.html"] = "a\n{% include incname %}b"
+	case 5: // body of an imported macro
+		put("macros.html", "{% macro m() export %}", "{% endmacro %}")
+		files["main.html"] = "{% import \"macros.html\" m %}\n\nxx {{ m() }}"
+	case 6: // a parent's block definition that the child does not override
+		put("base.html", "top{% block c %}", "{% endblock %}E")
+		files["main.html"] = "{% extends \"base.html\" %}{% block other %}child{% endblock %}"
+	case 7: // reached through block.Super
+		put("base.html", "top{% block c %}", "{% endblock %}E")
+		files["main.html"] = "{% extends \"base.html\" %}\n\n{% block c %}[{{ block.Super }}]{% endblock %}"
+	}
+	w := &world{files: []map[string]string{files}}
+	args := append(w.args("main.html", nil), "-", "-", hx(expect), strconv.Itoa(l), strconv.Itoa(cc), strconv.Itoa(len(c.text)))
+	return caseT{"errfile", args}
+}
+
+func execErrFile(r *run, c caseT) {
+	w, name, _ := worldFromArgs(c.args)
+	expect := unhx(c.args[9])
+	line, _ := strconv.Atoi(c.args[10])
+	col, _ := strconv.Atoi(c.args[11])
+	n, _ := strconv.Atoi(c.args[12])
+	b := w.build()
+	var perr *pongo2.Error
+	stage := "compile"
+	tpl, err, p := compileIn(b, name, true)
+	if p == nil && err == nil {
+		stage = "execute"
+		_, err, p = executeIn(tpl, pongo2.Context{
+			"boom":    func() (*pongo2.Value, error) { return nil, errors.New("boom") },
+			"incname": "inc.html", "a": 1,
+		})
+	}
+	obs := "none"
+	if p != nil {
+		obs = "panic"
+	} else if err != nil {
+		perr, _ = err.(*pongo2.Error)
+		if perr != nil {
+			obs = fmt.Sprintf("%s@%s:%d:%d", stage, perr.Filename, perr.Line, perr.Column)
+		} else {
+			obs = "plainerr"
+		}
+	}
+	id := r.emit(c.op, c.args, "errfile:"+hx(obs))
+	r.nontrivial(strings.Join(c.args, "|"))
+	detail := map[string]any{"files": w.files[0], "expected_file": expect, "expected_line": line,
+		"expected_col_from": col, "expected_col_to": col + n - 1, "observed": obs}
+	if id%499 == 0 {
+		r.sample(detail)
+	}
+	if p != nil {
+		r.reject(id, "panic", detail)
+		return
+	}
+	if perr == nil {
+		r.reject(id, "a failing construct produced no pongo2 error", detail)
+		return
+	}
+	// the named source: the file of the composition the error names
+	named, ok := "", false
+	for fn, src := range w.files[0] {
+		if perr.Filename == fn || strings.HasSuffix(perr.Filename, "/"+fn) {
+			named, ok = src, true
+		}
+	}
+	if !ok {
+		r.reject(id, "error names no file of the composition", detail)
+		return
+	}
+	if stage == "compile" && !strings.HasSuffix(perr.Filename, expect) {
+		// a compile error occurs in the file whose source is being parsed
+		r.reject(id, "compile error does not name the template it occurred in", detail)
+		return
+	}
+	if stage == "compile" && (perr.Line != line || perr.Column < col || perr.Column >= col+n) {
+		r.reject(id, "compile error position is not inside the offending construct", detail)
+		return
+	}
+	if perr.Line > 0 {
+		if _, ok := offsetOf(named, perr.Line, perr.Column); !ok {
+			r.reject(id, "error position outside the named source", detail)
+		} else if perr.Token != nil && perr.Token.Line == perr.Line && perr.Token.Col == perr.Column {
+			if why := tokenAt(named, perr.Token); why != "" {
+				detail["token"] = perr.Token.String()
+				r.reject(id, "error: "+why+" (in the named source)", detail)
+			}
+		}
 	}
 }
